@@ -221,7 +221,9 @@ def classify(spec):
 
 
 def _fn_names(kind, terms):
-    short = all(len(k) <= 2 for k, _ in terms)
+    # raw dicts go to the quadratic variants when every key denotes a monomial of at most two variables (for spins a
+    # label repeated an even number of times drops out: {(0, 1, 2, 2): 3} is the quadratic term 3 z0 z1)
+    short = all(len(squash(k, kind == "dict_spin")) <= 2 for k, _ in terms)
     if kind == "dict_bool":
         return ["approximate_pubo_extrema"] + (["approximate_qubo_extrema"] if short else [])
     if kind == "dict_spin":
@@ -353,8 +355,19 @@ def _atr(spec, rec, qv):
             live |= k
         if entered - live:
             classes.append("partially_stale")
-    for s, e in spec["probs"]:
-        res = lib(atr, obj, s, e, spin, what="anneal_temperature_range")
+    for j, (s, e) in enumerate(spec["probs"]):
+        strict = (len(terms) + j) % 3 == 0
+        if strict:
+            # a process in which warnings are errors and numpy traps floating point exceptions (np.seterr(all="raise")):
+            # a valid call stays a valid call whatever the caller's global settings are
+            import numpy as np
+            classes.append("strict_environment")
+            with warnings.catch_warnings():
+                warnings.simplefilter("error")
+                with np.errstate(all="raise"):
+                    res = lib(atr, obj, s, e, spin, what="anneal_temperature_range(strict environment)")
+        else:
+            res = lib(atr, obj, s, e, spin, what="anneal_temperature_range")
         _check_range(res, s, e, no_vars, "atr", detail)
         classes.append("end_zero" if e == 0 else ("equal_probs" if s == e else "end_lt_start"))
         if s == 0:
